@@ -73,14 +73,22 @@ func u8rs(c *ctx, before, after []byte, bufs string) {
 
 // FWR: wsflate.Writer / Reader reused through Reset (optionally after a destination error) vs fresh ones
 func fwr(c *ctx, msg1, msg2 []byte, failAt int, level int) {
-	ctor := func(w io.Writer) wsflate.Compressor { f, _ := flate.NewWriter(w, level); return f }
+	ctor := func(w io.Writer) wsflate.Compressor {
+		f, _ := flate.NewWriter(w, level)
+		if failAt == -2 { // a user-supplied compressor without Reset(io.Writer)
+			return plainComp{f}
+		}
+		return f
+	}
 	run := func(w *wsflate.Writer, d *recWriter, msg []byte) string {
 		n, e1 := w.Write(msg)
 		e2 := w.Flush()
 		return fmt.Sprintf("%d.%s.%s.%s.%s", n, werrClass(e1), werrClass(e2), werrClass(w.Err()), hx(d.all()))
 	}
 	d1 := newRecWriter()
-	d1.failAt = failAt
+	if failAt >= 0 {
+		d1.failAt = failAt
+	}
 	a := wsflate.NewWriter(d1, ctor)
 	a.Write(msg1)
 	a.Flush()
@@ -128,18 +136,11 @@ func fwr(c *ctx, msg1, msg2 []byte, failAt int, level int) {
 	c.emit("FWR %s %s %d %d -> %s %s %s %s", hx(msg1), hx(msg2), failAt, level, ra, rb, ra2, rb2)
 }
 
-func runC18Rimpl(c *ctx) {
-	n := 150
-	if c.thor {
-		n = 3000
-	}
-	for i := 0; i < n; i++ {
-		u8rs(c, randUtf8ish(c, 1+c.rng.Intn(10)), randUtf8ish(c, c.rng.Intn(10)), bufSpecs[c.rng.Intn(len(bufSpecs))])
-	}
-	// message reader: a text message read partially (ending inside a multi-byte character) and
-	// discarded; the next text message must be validated from a clean state
+// message reader: a text message read partially (ending inside a multi-byte character) and
+// discarded; the next text message must be validated from a clean state
+func runUtf8Discard(c *ctx, n int) {
 	texts := [][]byte{[]byte("h\xc3\xa9llo w\xc3\xb6rld \xe2\x82\xac!"), []byte("\xf0\x9f\x98\x80\xf0\x9f\x98\x80"), []byte("\xe2\x82\xac\xe2\x82\xac\xe2\x82\xac")}
-	for i := 0; i < 60; i++ {
+	for i := 0; i < n; i++ {
 		side := byte(1 + i%2)
 		var fs []sframe
 		for k := 0; k < 3; k++ {
@@ -156,9 +157,26 @@ func runC18Rimpl(c *ctx) {
 		fs = append(fs, ok)
 		runRDD(c, rcfg{state: side, chk: true, cb: 1}, fs, chunkSpecs[i%len(chunkSpecs)], "eof", []string{"1", "2", "3", "5"}[i%4], []string{"p", "pr", "ppr", "dpr"}[i%4])
 	}
+}
+
+// plainComp hides flate.Writer's Reset method: a Compressor that can only Write and Flush
+type plainComp struct{ w *flate.Writer }
+
+func (p plainComp) Write(b []byte) (int, error) { return p.w.Write(b) }
+func (p plainComp) Flush() error                { return p.w.Flush() }
+
+func runC18Rimpl(c *ctx) {
+	n := 150
+	if c.thor {
+		n = 3000
+	}
+	for i := 0; i < n; i++ {
+		u8rs(c, randUtf8ish(c, 1+c.rng.Intn(10)), randUtf8ish(c, c.rng.Intn(10)), bufSpecs[c.rng.Intn(len(bufSpecs))])
+	}
+	runUtf8Discard(c, 60)
 	// compression writer / reader reuse after Reset, also after an I/O error
 	for i := 0; i < 40; i++ {
-		fwr(c, c.payload(1+c.rng.Intn(400)), c.payload(c.rng.Intn(400)), []int{-1, 0, 1, -1}[i%4], []int{-1, 1, 9, 0}[(i/4)%4])
+		fwr(c, c.payload(1+c.rng.Intn(400)), c.payload(c.rng.Intn(400)), []int{-1, 0, 1, -2}[i%4], []int{-1, 1, 9, 0}[(i/4)%4])
 	}
 	u8rs(c, []byte("abc"), nil, "4096")
 	u8rs(c, []byte("\xe2\x82"), []byte("\xac"), "1")
